@@ -37,6 +37,10 @@ def run(ck, ctx):
                      "were fsynced and acknowledged in the previous run")
     ck.nd("the crash model (what the kernel persists after fsync) is trusted: fsync of a file covers every byte appended before it")
     ck.nd("behaviour for every fault sequence / batch boundary at run time (only the code shape on every path is decided)")
+    ck.rule("R09.9", "what was fsynced is what recovery returns: the WAL reader yields an entry only after the length and CRC tests, stops a "
+                     "file at its first undecodable entry, and the per-file recovery loop neither returns on an unreadable file nor ends "
+                     "before the last file (a write reported durable lives in *some* file: a recovery that gives up at a damaged "
+                     "neighbour loses it) - shared with C10 R10.1 / R10.3")
     for cfg in ctx.configs:
         prog = ctx.prog(cfg)
         ck.configs.append(cfg)
@@ -49,6 +53,11 @@ def run(ck, ctx):
         from . import c10
         c10.r106(ck, prog, cfg, "R09.6")
         ck.fn_count += len(prog.fns)
+        from . import c10 as _c10
+        from .core import Alias as _Alias
+        _c10._r101(_Alias(ck, "R10.1", "R09.9", skip=("R10.2",)), prog, cfg)
+        _c10._r103(_Alias(ck, "R10.3", "R09.9"), prog, cfg)
+        _c10.file_loop_rule(ck, prog, cfg, "R09.9")
 
 
 def _tag(cfg):
